@@ -135,7 +135,9 @@ class IndexValues(Harness):
     def cases(self, tier):
         out = [{"shares": i, "sym_shares": False} for i in range(len(self.share_sets))]
         out.append({"shares": 1, "sym_shares": False, "subclass": True})
-        out += [{"neg": "duplicate"}, {"neg": "no-shares"}, {"shares": 1, "sym_shares": False, "rejected_batch": True}]
+        out += [{"neg": "duplicate"}, {"neg": "no-shares"}, {"shares": 1, "sym_shares": False, "rejected_batch": True},
+                {"shares": 1, "sym_shares": False, "registered_before_setup": True},
+                {"shares": 1, "sym_shares": False, "nested": True}]
         # outstanding shares of a component assigned (public attribute) after the index was set up
         out.append({"shares": 0, "sym_shares": False, "reassign": [250, 100]})
         out.append({"shares": 1, "sym_shares": False, "reassign": [2, 3, 7]})
@@ -182,7 +184,23 @@ class IndexValues(Harness):
             shares = [g.int(f"s{i}", 1, 10 ** 6) for i in range(len(shares))]
             for m, s in zip(comps, shares):
                 m.outstanding_shares = s     # setup() insists on a python int
-        if case.get("rejected_batch"):
+        if case.get("registered_before_setup"):
+            # a component registered programmatically before the settings are applied stays a component
+            idx._add_market(comps[2])
+            idx.setup({"tickSize": 1, "marketPrice": 100, "markets": [m.name for m in comps[:2]]})
+            comps = [comps[2], comps[0], comps[1]]
+            shares = [shares[2], shares[0], shares[1]]
+            g.require(len(idx.get_components()) == 3, "C17.component-dropped",
+                      "a component accepted before setup() is no longer a component")
+        elif case.get("nested"):
+            # the last component is itself an index market (over the first two) with a market price of its own
+            inner = IndexMarket(market_id=len(shares) + 1, prng=random.Random(0), simulator=sim, name="INNER")
+            inner.setup({"tickSize": 1, "marketPrice": 500, "outstandingShares": shares[2],
+                         "markets": [m.name for m in comps[:2]]})
+            sim._add_market(inner)
+            comps = [comps[0], comps[1], inner]
+            idx.setup({"tickSize": 1, "marketPrice": 100, "markets": [m.name for m in comps]})
+        elif case.get("rejected_batch"):
             # the index starts with the first two components; a list naming an existing component is refused and
             # leaves the index as it was; then the third one is added
             idx.setup({"tickSize": 1, "marketPrice": 100, "markets": [m.name for m in comps[:2]]})
